@@ -389,8 +389,9 @@ void debug_printdec_signed_long_long(signed long long x)
 {
     if (x < 0)
     {
-        x = -x;
         debug_putchar('-');
+        debug_printdec_uint64(0 - (uint64_t)x);
+        return;
     }
     debug_printdec_uint64(x);
 }
